@@ -337,8 +337,8 @@ def c02(directed, q, pres, t, all_nodes, attrs, nbunch=None, ids=None):
     for a in V:
         for b in V:
             exp = 1 if (a, b) in E else 0
-            got = q["nint2"].get("%d,%d" % (a, b), [0, 0])
-            if got != [exp, exp]:
+            got = q["nint2"].get("%d,%d" % (a, b), [0, 0, 0, 0] if directed else [0, 0])
+            if got != ([exp] * 4 if directed else [exp, exp]):
                 fails.append(F("C02.nint2", t=t, pair=[a, b], expected=exp, got=got))
     return fails
 
